@@ -24,6 +24,14 @@ theorem class_names_known :
                   "space", "upper", "xdigit"] := by
   decide
 
+/-- the byte table of the names is the name list (`classPred` is keyed by the strings, `fill_class`
+compares the bytes) and the names are prefix-free, so the first prefix match is the only one -/
+theorem class_table_names : classTable.map (·.1) = classNames := by decide
+
+theorem class_table_prefix_free :
+    classTable.all (fun a => classTable.all (fun b => a.1 == b.1 || !(Usual.C04.startsWith a.2 b.2))) = true := by
+  decide
+
 /-- limits used by `op_count_full` / `op_gstart` -/
 theorem limits : MAX_COUNT = 0x7fff ∧ MAX_GROUPS = 128 := by decide
 
